@@ -561,6 +561,27 @@ impl CellBuffer {
     }
 }
 
+#[cfg(feature = "verif")]
+impl CellBuffer {
+    /// verification hook: the legend entries collected for this buffer
+    pub fn verif_css_styles(&self) -> &Vec<(String, String)> {
+        &self.css_styles
+    }
+
+    /// verification hook: the quoted texts collected for this buffer
+    pub fn verif_escaped_text(&self) -> &Vec<(Cell, String)> {
+        &self.escaped_text
+    }
+
+    /// verification hook: the private `escape_line`
+    pub fn verif_escape_line(
+        line: usize,
+        raw: &str,
+    ) -> (Vec<(Cell, String)>, String) {
+        Self::escape_line(line, raw)
+    }
+}
+
 impl fmt::Display for CellBuffer {
     fn fmt(&self, f: &mut fmt::Formatter) -> fmt::Result {
         writeln!(f, "CellBuffer dump..")?;
